@@ -353,6 +353,31 @@ def run(M, c):
             key = (loc, r.choice(UNITS), r.choice((0, 1, 2, 3, 5, 11, 21, 101)), r.random() < 0.5, r.random() < 0.5, r.random() < 0.3)
             if i % 9 == 0:
                 P.set_locale(r.choice(M.locs))
+            if i % 17 == 0:
+                # a rejected configuration call must leave the configuration as it was: everything rendered with the
+                # default locale still works and still speaks the locale that was in force
+                before = P.get_locale()
+                x_ = P.DateTime(2021, 6, 15, 12, tzinfo=P.UTC)
+                want = (x_.diff_for_humans(x_.add(days=3), locale=before), P.duration(hours=5, minutes=3).in_words(locale=before),
+                        x_.format("dddd D MMMM", locale=before))
+                try:
+                    P.set_locale(r.choice(("xx", "not_a_locale", "zz_zz")))
+                    rejected = False
+                except Exception:  # noqa: BLE001 - however the call is rejected
+                    rejected = True
+                M.current = {"k": "rejected-set_locale", "before": before}
+                try:
+                    got = (x_.diff_for_humans(x_.add(days=3)), P.duration(hours=5, minutes=3).in_words(), x_.format("dddd D MMMM"))
+                except Exception as e:  # noqa: BLE001
+                    got = ("raised", type(e).__name__, repr(e)[:80])
+                if rejected:
+                    M.check("history", got == want, "C18/after-rejected-set_locale:" + ("raised" if got and got[0] == "raised" else "changed"),
+                            "after a set_locale() call that was rejected, default-locale rendering raises or no longer uses the locale in force",
+                            before=before, got=got, expected=want)
+                try:
+                    P.set_locale(before)
+                except ValueError:
+                    P.set_locale("en")
             if i % 13 == 0:
                 # interleave other keys with defaults (Locale.get memoises the default it is first called with)
                 L = P.locale(loc)
